@@ -310,25 +310,40 @@ Section Positions.
     - destruct (slice src _ _); [|exact I].
       apply stp_bind; [apply raw_string_noerr|]. intros el _.
       apply stp_bind; [apply push_front_noerr|]. intros ts' _. cbn. apply Suffix_refl.
-    - apply stp_bind; [unfold span_str; destruct (slice _ _ _); exact I|]. intros txt _.
+    - destruct (slice src _ _); [|exact I].
       apply stp_bind; [apply raw_string_noerr|]. intros el _. cbn. apply Suffix_refl.
     - (* block start *)
       apply Pro; [|apply Suffix_refl]. intros es ts1 it1 S1.
       apply stp_bind; [apply standalone_noerr|]. intros [trim ts2] _.
       destruct deco; cbn [c_ts]; (destruct ts2; [exact I | cbn; exact S1]).
     - (* invert *)
+      match goal with |- stp _ _ (let '(chain_pre, ita) := ?X in _) =>
+        destruct X as [chain_pre ita] eqn:Epa end.
+      assert (Sa : Suffix ita it).
+      { destruct chain; [|inversion Epa; apply Suffix_refl].
+        destruct it as [|t0 it0']; [inversion Epa; apply Suffix_refl|].
+        destruct (is_rule R_leading_tilde_to_omit_whitespace t0); inversion Epa; subst;
+          [apply Suffix_cons, Suffix_refl | apply Suffix_refl]. }
+      clear Epa.
       apply stp_bind.
       + destruct chain; [|exact I].
-        pose proof (proj1 (proj2 (proj2 (parsers_sfx f))) it) as H.
-        destruct (parse_name src f it) as [[nm it']| | |]; cbn [cbind errp sfx] in *; auto.
+        pose proof (proj1 (proj2 (proj2 (parsers_sfx f))) ita) as H.
+        destruct (parse_name src f ita) as [[nm it']| | |]; cbn [cbind errp sfx] in *; auto.
         apply ip_err_at; assumption.
       + intros it0 E0.
         assert (S0 : Suffix it0 it).
-        { destruct chain; [|inversion E0; apply Suffix_refl].
-          pose proof (proj1 (proj2 (proj2 (parsers_sfx f))) it) as H.
-          destruct (parse_name src f it) as [[nm it']| | |]; cbn [cbind sfx snd] in *; try discriminate.
+        { eapply Suffix_trans; [|exact Sa].
+          destruct chain; [|inversion E0; apply Suffix_refl].
+          pose proof (proj1 (proj2 (proj2 (parsers_sfx f))) ita) as H.
+          destruct (parse_name src f ita) as [[nm it']| | |]; cbn [cbind sfx snd] in *; try discriminate.
           inversion E0; subst. exact H. }
-        apply Pro; [|exact S0]. intros es ts1 it1 S1.
+        pose proof (proj1 (parsers_sfx f) it0 (tk_end pr)) as He.
+        destruct (parse_expression src f it0 (tk_end pr)) as [[e0 it1]| | |]; cbn [cbind sfx snd stp] in *; auto;
+          [|apply ip_err_at; assumption].
+        assert (S1 : Suffix it1 it) by (eapply Suffix_trans; eassumption).
+        apply stp_bind.
+        { destruct (es_pre _); [|exact I]. unfold remove_previous_whitespace. destruct (c_ts c1); exact I. }
+        intros ts1 _.
         apply stp_bind; [apply standalone_noerr|]. intros [trim ts2] _.
         destruct ts2 as [|t ts3]; [exact I|]. destruct (c_hs c1) as [|h hs]; [exact I|].
         apply stp_bind; [apply set_chain_template_noerr|]. intros h2 _. cbn. exact S1.
